@@ -536,6 +536,8 @@ func c03(run *core.Run, replay string) {
 		{"seed-big-bwt-tight", cfg("BWT", "HUFFMAN", 8<<20, 1, 0), "html", 136 * 31001, S},
 		{"seed-big-bwts-tight", cfg("BWTS", "ANS0", 8<<20, 1, 32), "text", 136 * 31003, S},
 		{"seed-big-bwts", cfg("BWTS", "NONE", 8<<20, 1, 0), "text", 4<<20 + 70000, S},
+		// two blocks above 4 MiB handled by the same task slot (jobs 1), the second one shorter: state kept from block to block
+		{"seed-big-bwt-2blocks", cfg("BWT", "NONE", 6<<20, 1, 0), "html", 6<<20 + 4300000, S},
 		{"seed-big-lz", cfg("LZ", "NONE", 8<<20, 1, 32), "repeatblocks", 5 << 20, S},
 		{"seed-big-rolz", cfg("ROLZ", "NONE", 8<<20, 1, 0), "html", 5 << 20, S},
 	}
@@ -586,6 +588,17 @@ func c03(run *core.Run, replay string) {
 				}
 			}
 			nbig = run.Pick(4, 40)
+		}
+		if strings.Contains(big[bi].Name, "2blocks") {
+			// every primary index of the SECOND block forged to small / boundary values
+			for ch := 0; ch < 8; ch++ {
+				for _, v := range []int64{0, 1, 4, 5, 6} {
+					if !run.Thorough() && ch > 1 && (ch+int(v))%3 != 0 {
+						continue
+					}
+					tcs = append(tcs, &totCase{R: big[bi], Mut: totMut{Kind: "bwt-index", A: 1, B: int64(ch), C: v}, Jobs: 1})
+				}
+			}
 		}
 		if strings.Contains(big[bi].Name, "tight") {
 			for q := 0; q < 6; q++ {
